@@ -135,7 +135,11 @@ pub fn collect_file_prop(ctx: &Ctx, p: FileProp) -> (Tally, Meta) {
 }
 
 pub fn check_file_prop(ctx: &Ctx, p: FileProp) -> i32 {
-    let (tally, meta) = collect_file_prop(ctx, p);
+    let (mut tally, mut meta) = collect_file_prop(ctx, p);
+    if p == FileProp::C01 {
+        tally.merge(scaling_part(ctx, p));
+        meta.rule = format!("{} Plus the scaling family: every video count 1..={} x three audio cadences x three submission shapes (files of up to ~300 samples), same oracle.", meta.rule, if ctx.thorough { 120 } else { 48 });
+    }
     finish(ctx, &tally, meta)
 }
 
@@ -347,6 +351,93 @@ pub fn check_c15(ctx: &Ctx) -> i32 {
     });
     tally.count("lattice_histories", t2.evaluations);
     tally.merge(t2);
-    meta.rule = format!("(1) {} (2) timestamp lattice: video timestamps = every strictly increasing choice of <= {nvm} points of {{0,1,..,5}} x 0.02 s, audio timestamps = every non-decreasing choice of <= {nam} points not before the first video point (so cross-track equalities at every index combination occur), every admissible submission order (bursts, all-video-first, alternation), {{AAC, Opus}} x both layouts: storage order by file offset must equal the merge by (tick, video first, sample number)", meta.rule);
+    tally.merge(scaling_part(ctx, FileProp::C15));
+    meta.rule = format!("(1) {} (2) timestamp lattice: video timestamps = every strictly increasing choice of <= {nvm} points of {{0,1,..,5}} x 0.02 s, audio timestamps = every non-decreasing choice of <= {nam} points not before the first video point (so cross-track equalities at every index combination occur), every admissible submission order (bursts, all-video-first, alternation), {{AAC, Opus}} x both layouts: storage order by file offset must equal the merge by (tick, video first, sample number) (3) scaling family: every video count 1..={} x three audio cadences with cross-track ties x three submission shapes (up to ~300 samples per file)", meta.rule, if ctx.thorough {{ 120 }} else {{ 48 }});
     finish(ctx, &tally, meta)
+}
+
+// ---------------------------------------------------------------------------------------------
+// Scaling family: the same simple shapes at growing sizes (implementation thresholds such as a
+// sort switching algorithms at 20/32 elements or buffers crossing a chunk size are invisible
+// to small-scope enumeration). Every size 1..=max is run, not a sample of sizes.
+// ---------------------------------------------------------------------------------------------
+
+pub fn scaling_histories(max_video: usize) -> Vec<(Cfg, Vec<Op>, String)> {
+    use oracle::frames::{audio_frame, video_frame, ACodec, VCodec};
+    use oracle::model::{Bytes, T};
+    let mut out = vec![];
+    let unit = 0.02f64;
+    for nv in 1..=max_video {
+        // audio cadence relative to video: same ticks, twice as dense, half as dense
+        for (cad, name) in [((1usize, 1usize), "1:1"), ((1, 2), "2 audio per video"), ((2, 1), "1 audio per 2 video")] {
+            for shape in 0..3usize {
+                let (codec, ac, fs) = match (nv + shape) % 4 {
+                    0 => (VCodec::H264, ACodec::AacLc, true),
+                    1 => (VCodec::H265, ACodec::Opus, false),
+                    2 => (VCodec::Av1, ACodec::AacLc, false),
+                    _ => (VCodec::Vp9, ACodec::Opus, true),
+                };
+                let cfg = Cfg::basic(codec, Some(ac), fs);
+                // video at 2*i*cad.0 units, audio at j*cad... on a shared lattice so ties occur
+                let vts: Vec<f64> = (0..nv).map(|i| (i * 2 * cad.0) as f64 * unit).collect();
+                let na = nv * 2 * cad.0 / (2 * cad.0 / cad.1.max(1)).max(1);
+                let astep = (2 * cad.0) as f64 / cad.1 as f64;
+                let ats: Vec<f64> = (0..na.min(3 * nv)).map(|j| (j as f64 * astep).round() * unit).filter(|&a| a <= *vts.last().unwrap() + unit).collect();
+                let v_op = |i: usize| {
+                    let (d, _) = video_frame(codec, i == 0 || i % 7 == 0, i == 0, i as u32 + 1, 4 + i % 5);
+                    Op::WV { pts: T(vts[i]), data: Bytes::new(d), key: i == 0 || i % 7 == 0 }
+                };
+                let a_op = |j: usize| Op::WA { pts: T(ats[j]), data: Bytes::new(audio_frame(ac, j as u32, 5 + j % 3).0) };
+                let mut ops = vec![];
+                match shape {
+                    0 => {
+                        // merge in timestamp order (video first on ties)
+                        let (mut i, mut j) = (0, 0);
+                        while i < nv || j < ats.len() {
+                            if j >= ats.len() || (i < nv && vts[i] <= ats[j]) {
+                                ops.push(v_op(i));
+                                i += 1;
+                            } else {
+                                ops.push(a_op(j));
+                                j += 1;
+                            }
+                        }
+                    }
+                    1 => {
+                        for i in 0..nv {
+                            ops.push(v_op(i));
+                        }
+                        for j in 0..ats.len() {
+                            ops.push(a_op(j));
+                        }
+                    }
+                    _ => {
+                        // first video frame, then all audio, then the remaining video
+                        ops.push(v_op(0));
+                        for j in 0..ats.len() {
+                            ops.push(a_op(j));
+                        }
+                        for i in 1..nv {
+                            ops.push(v_op(i));
+                        }
+                    }
+                }
+                out.push((cfg, ops, format!("nv={nv} cadence {name} shape {shape}")));
+            }
+        }
+    }
+    out
+}
+
+pub fn scaling_part(ctx: &Ctx, p: FileProp) -> Tally {
+    let max = if ctx.thorough { 120 } else { 48 };
+    let hs = scaling_histories(max);
+    let chunks: Vec<&[(Cfg, Vec<Op>, String)]> = hs.chunks(8).collect();
+    let mut t = par_items(&chunks, ctx.seed, |idx, ch, t| {
+        for (k, (cfg, ops, _)) in ch.iter().enumerate() {
+            judge_history(p, cfg, ops, (7_000_000 + idx as u64, k as u64), t);
+        }
+    });
+    t.count("scaling_histories", hs.len() as u64);
+    t
 }
